@@ -29,4 +29,35 @@ CHECKS = {
           "the six signature classes are checked for create() round trip, equality iff defining parameters are equal (both argument orders), "
           "member presence, widths and flows computed independently from the parameters."),
     note="Only same-class comparisons; FieldPort shapes compared after Shape.cast as documented."),
+ "C04": dict(
+    design_ref="DESIGN.md section 4, C04",
+    technique="property-based testing with cycle-accurate simulation of the real multiplexer in lock step with a reference model (conforming and arbitrary stimuli)",
+    text=("Generated register layouts x sharing limits x transaction schedules are simulated on the real csr.Multiplexer; every cycle r_stb of every "
+          "register and bus.r_data are compared with a snapshot model that shares no code with the implementation (no shadow/hash). Arbitrary "
+          "(non-conforming) stimuli check strobe exactness and zero-when-idle only. Bounded exploration."),
+    note="Trusts vlib/csrmodel.py and Amaranth's Python simulator. Data returned by non-conforming sequences is not compared."),
+ "C05": dict(
+    design_ref="DESIGN.md section 4, C05",
+    technique="property-based testing with lock-step reference model + sharing-limit differential (same stimulus under two shadow_overlaps values)",
+    text=("Same space as C04; every cycle w_stb of every register (all stimuli) and w_data at the strobe on the chunks written in the transaction "
+          "(conforming stimuli) are compared with the model, under the layout's sharing limit and under a second one."),
+    note="Trusts vlib/csrmodel.py and the simulator. Unwritten chunks of w_data are don't-care."),
+ "C11": dict(
+    design_ref="DESIGN.md section 4, C11",
+    technique="property-based testing over generated field trees; packing oracle from an independent walk of the input description; combinational simulation",
+    text=("Generated nested field collections (dict/list/Field/annotations, all shapes and access modes incl. reserved and zero-width) are built into "
+          "registers; refusal iff access mismatch; order, width, r_data composition, w_data slices and strobe fan-out are compared with arithmetic on the description."),
+    note="Field values are observed at field ports; trusts the simulator."),
+ "C12": dict(
+    design_ref="DESIGN.md section 4, C12",
+    technique="property-based testing of input histories against per-action step models, plus exhaustive (state,input) enumeration for widths 1-3",
+    text=("Arbitrary per-cycle w_stb/w_data/set/clear/r_data histories on every action and shape (unsigned, signed, Enum, Flag) are simulated and all bits compared "
+          "jointly every cycle with step models; all (state, w_stb, w_data, hw) combinations are enumerated completely for RW/RW1C/RW1S of width 1..3 (4 in thorough)."),
+    note="Signals accessed as raw bit patterns; trusts the simulator."),
+ "C13": dict(
+    design_ref="DESIGN.md section 4, C13",
+    technique="model-based property testing: EventMap call histories vs list model; Monitor cycle-accurate simulation vs step model",
+    text=("EventMap histories (repeats, freeze, wrong types) against an insertion-ordered list; Monitor with up to 10 sources of mixed trigger modes added in shuffled "
+          "order with repeats, arbitrary inputs/enable/clear every cycle, trg/pending/src.i compared each cycle (trigger beats clear; bit k <-> index k)."),
+    note="Trusts the simulator; pending read from Monitor.pending."),
 }
